@@ -82,16 +82,19 @@ def pathForArea (w : World) (refs : List Id) : Option Bool :=
 
 /-- `ValidateArea`: every path ID resolves to a path that `ValidatePathForArea` accepts.
 `none` = panic. -/
-def validateArea (w : World) (polys : List (List Id)) : Option Bool :=
-  polys.flatten.foldl (fun acc pid =>
-    match acc with
-    | none => none
-    | some false => some false      -- the loop returns at the first error
-    | some true =>
-      match find w pid with
-      | some ⟨_, .path refs⟩ => pathForArea w refs
-      | some _ => none              -- `path.(b6.PhysicalFeature)` on another kind of feature
-      | none => some false) (some true)
+def validatePaths (w : World) : List Id → Option Bool
+  | [] => some true
+  | pid :: rest =>
+    match find w pid with
+    | some ⟨_, .path refs⟩ =>
+      (match pathForArea w refs with
+       | none => none
+       | some false => some false     -- the loop returns at the first error
+       | some true => validatePaths w rest)
+    | some _ => none                  -- `path.(b6.PhysicalFeature)` on another kind of feature
+    | none => some false
+
+def validateArea (w : World) (polys : List (List Id)) : Option Bool := validatePaths w polys.flatten
 
 /-- `ValidateFeature` with `InvertClockwisePaths` = `invert`. Result: `none` = panic; `some (ok, f')`
 where `f'` is the feature after validation (a clockwise closed path is reversed in place when
@@ -114,17 +117,21 @@ def isArea (f : Feat) : Bool := match f.geo with | .area _ => true | _ => false
 /-- one validation stage of `Finish` over the features selected by `sel`: validate each against the
 whole map `w`, keep the survivors (with inversions applied), drop the broken ones. Unselected
 features pass through. `none` = a validation panicked (fatal: it runs in a goroutine). -/
-def stage (O : Oracle) (invert : Bool) (sel : Feat → Bool) (w : World) : Option World :=
-  w.foldr (fun f acc =>
-    match acc with
+def stageOn (O : Oracle) (invert : Bool) (sel : Feat → Bool) (ctx : World) : World → Option World
+  | [] => some []
+  | f :: l =>
+    match stageOn O invert sel ctx l with
     | none => none
     | some rest =>
       if sel f then
-        match validateFeature O invert w f with
+        match validateFeature O invert ctx f with
         | none => none
         | some (true, f') => some (f' :: rest)
         | some (false, _) => some rest
-      else some (f :: rest)) (some [])
+      else some (f :: rest)
+
+def stage (O : Oracle) (invert : Bool) (sel : Feat → Bool) (w : World) : Option World :=
+  stageOn O invert sel w w
 
 /-- `BasicWorldBuilder.Finish` after the repair: non-areas first, then areas against what is left. -/
 def finish (O : Oracle) (invert : Bool) (src : World) : Option World :=
@@ -135,6 +142,19 @@ def finish (O : Oracle) (invert : Bool) (src : World) : Option World :=
 /-- before the repair: one pass over everything, then the deletions -/
 def finishOld (O : Oracle) (invert : Bool) (src : World) : Option World :=
   stage O invert (fun _ => true) src
+
+/-- what inverting a clockwise loop is supposed to achieve, for the closed paths of `src`: the reversed
+path is a valid counter-clockwise loop. S2 breaks this for degenerate loops (two points of the path
+at the same location: the loop and its reversal are the same vertex sequence and both "clockwise"). -/
+def invertContract (O : Oracle) (pts : World) (src : World) : Bool :=
+  src.all fun f => match f.geo with
+    | .path refs =>
+      (match validatePath O pts refs with
+       | .clockwise => (match pathSlots pts refs.reverse with
+          | some slots => O.loopValid slots.dropLast && O.ccw slots.dropLast
+          | none => false)
+       | _ => true)
+    | _ => true
 
 /-! ## the property: every feature of a world is valid in that world -/
 
@@ -241,18 +261,19 @@ def Validator.checkArea (v : Validator) (polys : List (List Id)) : Validator × 
       else (v, st)
     | none => (v.set pid .unknown, if st = .valid then .unknown else st)) (v, .valid)
 
+/-- one iteration of the loop of `Validator.validateQueue` over the state (validator, kept, emitted) -/
+def drainStep (acc : Validator × List Feat × List Feat) (a : Feat) : Validator × List Feat × List Feat :=
+  match a.geo with
+  | .area polys =>
+    if (acc.1.checkArea polys).2 = .valid then ((acc.1.checkArea polys).1, acc.2.1, acc.2.2 ++ [a])
+    else if (acc.1.checkArea polys).2 = .unknown then ((acc.1.checkArea polys).1, acc.2.1 ++ [a], acc.2.2)
+    else ((acc.1.checkArea polys).1, acc.2.1, acc.2.2)
+  | _ => acc
+
 /-- `Validator.validateQueue`: emits the queued areas that became valid, keeps the unknown ones -/
 def Validator.drainQueue (v : Validator) : Validator × List Feat :=
-  let (v', keep, out) := v.queue.foldl (fun (acc : Validator × List Feat × List Feat) a =>
-    let (v, keep, out) := acc
-    match a.geo with
-    | .area polys =>
-      let (v', st) := v.checkArea polys
-      if st = .valid then (v', keep, out ++ [a])
-      else if st = .unknown then (v', keep ++ [a], out)
-      else (v', keep, out)
-    | _ => (v, keep, out)) (v, [], [])
-  ({ v' with queue := keep }, out)
+  ({ (v.queue.foldl drainStep (v, [], [])).1 with queue := (v.queue.foldl drainStep (v, [], [])).2.1 },
+    (v.queue.foldl drainStep (v, [], [])).2.2)
 
 /-- `isLoop` of compact/build.go -/
 def isLoop (w : World) (refs : List Id) : Bool :=
